@@ -79,6 +79,11 @@ def r2(ck, ph, sites):
             if (f.short, root) in FROZEN:
                 continue
             if root in AST_ROOTS or root in SCHEMA_ROOTS:
+                # the name is only a hint: a parameter of that name which is a fresh object at every call site of the phase
+                # (a helper handed the caller's own new dict) is not a shared object
+                ok_, _why = ph.judge(f, s, c, why, ph.exec_prov)
+                if c == "PARAM" and ok_:
+                    continue
                 bad += 1
                 ck.ob(f"{f.qualname}: no write through `{root}` (cached document / schema objects stay read-only after the cache lookup)", False, f, s.node,
                       construct=f"readonly:{s.receiver_text()[:60]}:{s.kind}",
@@ -134,8 +139,9 @@ def _per_request_objects(ck, repo, ph):
           construct="ctx:operands", detail=str(kw))
     for name in ("fragments", "operations", "errors", "variable_values"):
         binds = [n for n in walk_no_nested(b.node) if isinstance(n, (ast.Assign, ast.AnnAssign)) and unparse(n.targets[0] if isinstance(n, ast.Assign) else n.target) == name]
-        ck.ob(f"build_execution_context: `{name}` starts as a fresh container", bool(binds) and is_fresh_expr(binds[0].value), b, binds[0] if binds else b.node,
-              construct=f"ctx:fresh:{name}")
+        own = lambda v: is_fresh_expr(v) or isinstance(v, (ast.Call, ast.Await)) or (isinstance(v, ast.Tuple) and all(is_fresh_expr(e) or isinstance(e, (ast.Call, ast.Await)) for e in v.elts))  # noqa: E731
+        ck.ob(f"build_execution_context: every binding of `{name}` is a container made by this call (a display, or what a callee answered), never one reached from the document or the schema",
+              all(own(x.value) for x in binds if x.value is not None), b, binds[0] if binds else b.node, construct=f"ctx:fresh:{name}")
     # no mutable default argument in any request-phase function
     n = 0
     for fq in sorted(ph.exec_set | ph.parse_set):
